@@ -350,6 +350,8 @@ class Sampler():
                             'shell_n_sample_exp', 'shell_end_exp',
                             'n_update_iter', 'n_like_iter']:
                     setattr(self, key, group.attrs[key])
+                # The setter of discard_exploration only accepts a bool.
+                self._discard_exploration = bool(self._discard_exploration)
 
                 for shell in range(len(self.shell_n)):
                     self.points.append(
